@@ -864,6 +864,10 @@ class _MIPS32_ELF(ABI):
             results.add(self.get_register(reg))
         return results
 
+    def byteorder(self) -> Literal["little", "big"]:
+        # We assemble MIPS32 as big endian (see _target_triple).
+        return "big"
+
     def pointer_size(self) -> int:
         return 4
 
